@@ -260,6 +260,38 @@ def cbc_padding_range(chk):
                       'compared with the padding length' % (init, bound, B, A), key='%s range' % R)
 
 
+def cbc_padding_length_range(chk):
+    """RFC 5246 6.2.3.2: the CBC padding length byte may take any value 0..255 that fits in the record (the sender may pad up to 255
+    bytes to hide the length).  cbc_decrypt() accepts pad_len <= max_len - min_len: for a record long enough that bound must be 255,
+    for a short one everything after the MAC.  Decided by partial evaluation with the record length and MAC length pinned: the constant
+    the padding byte is compared with."""
+    from .. import fold
+    R = 'cbc-padding-length-range'
+    src, fn = 'src/ssl/ssl_rec_cbc.c', 'cbc_decrypt'
+    U = oblig.funit(src)
+    if fn not in U.funcs:
+        raise AnalysisBroken('%s vanished' % fn)
+    F = U.func(fn)
+    L = irf.Layouts(U.unit)
+    ml, ei = L.field('br_sslrec_in_cbc_context', 'mac_len'), L.field('br_sslrec_in_cbc_context', 'explicit_IV')
+    dl = [i for i in F.insts.values() if i['op'] == 'load' and F.addr_of(i['ops'][0]) == ({'k': 'a', 'v': 4}, 0)]
+    if ml is None or ei is None or not dl:
+        raise AnalysisBroken('%s: mac_len / explicit_IV / *data_len not identified' % fn)
+    for ln, mac in ((1000, 20), (100, 20), (277, 20), (276, 20), (4096, 48), (64, 32)):
+        hy = [dict(kind='pin', n=x['n'], value=ln) for x in dl] + [dict(kind='pin', n=x['n'], value=mac) for x in U.field_loads(fn, 0, ml[0], ml[1])] + \
+             [dict(kind='pin', n=x['n'], value=0) for x in U.field_loads(fn, 0, ei[0], ei[1])]
+        Fo = U.optimise(fn, hy, ('GT', 'EQ', 'LT', 'GE', 'MUX', 'NOT'))
+        gts = sorted((c for c in fold._reach_insts(Fo) if c['op'] == 'call' and c.get('callee') == 'GT' and c['ops'][1]['k'] == 'c'), key=lambda c: c['id'])
+        want = min(255, ln - 1 - mac)
+        inst = '%s: a %d-byte plaintext block with a %d-byte MAC accepts padding length bytes 0..%d' % (fn, ln, mac, want)
+        if gts and gts[0]['ops'][1]['v'] == want:
+            chk.ok(R, inst, src)
+        else:
+            chk.violation(R, inst, src, 'the padding length byte is compared with %s: %s' % (gts[0]['ops'][1]['v'] if gts else 'nothing constant',
+                          'records carrying the maximal padding a peer may legitimately send are rejected as BAD_MAC' if gts and gts[0]['ops'][1]['v'] < want else
+                          'padding that cannot fit is accepted'), key='%s %d %d' % (R, ln, mac))
+
+
 def run(tier):
     chk = report.Check('C02', tier,
                        'Static necessary conditions of "no forged, replayed or reordered record is delivered": in each of the 4 decrypt methods every '
@@ -288,6 +320,7 @@ def run(tier):
     from .. import lints
     lints.length_is_boolean(chk, ['src/ssl/ssl_rec', 'src/ssl/ssl_engine'])
     # ChaCha20-Poly1305 records: every ciphertext bit must enter the authenticator at its own weight (shared with C12)
+    cbc_padding_length_range(chk)
     from .c12 import poly1305_block_decoding
     poly1305_block_decoding(chk)
     # the whole 64-bit sequence number enters the MAC / AAD / nonce: a record cannot be replayed 2^32 records later (shared with C20)
